@@ -180,6 +180,27 @@ pub fn run_case(v: &Value) -> Value {
             "set_inline" => {
                 let _ = g.set_inline_script_content(&op[1], &op[2], &op[3]);
             }
+            "emit" => {
+                // an observation in the middle of a history: every emitter runs, the results are dropped
+                let paths: Vec<String> = group
+                    .list_template_trees()
+                    .map(|(p, _)| p.to_string())
+                    .collect();
+                for p in paths.iter() {
+                    let _ = guarded("emit:get_tmpl_gen_object", &mut panics, || {
+                        group.get_tmpl_gen_object(p).map(|_| ())
+                    });
+                }
+                let _ = guarded("emit:get_tmpl_gen_object_groups", &mut panics, || {
+                    group.get_tmpl_gen_object_groups().map(|_| ())
+                });
+                let _ = guarded("emit:get_wx_gen_object_groups", &mut panics, || {
+                    group.get_wx_gen_object_groups().map(|_| ())
+                });
+                let _ = guarded("emit:export_all_scripts", &mut panics, || {
+                    group.export_all_scripts().map(|_| ())
+                });
+            }
             "extra_runtime" => {
                 g.set_extra_runtime_script(&op[1]);
             }
